@@ -51,15 +51,16 @@ def units(tier):
     return out
 
 
-def focus_configs(info, tier):
+def focus_configs(info, tier, setname="gen"):
     # names declared global/nonlocal are not f's own variables (ptera reports their value at entry)
     names = [n for n in info["params"] + info["locals"] if n not in info["declared"]]
     out = []
     for v in names:
         others = [n for n in names if n != v]
         ctxs = [()]
-        ctxs += [(o,) for o in others]
-        if len(others) > 1:
+        if setname == "gen" or tier == "thorough":
+            ctxs += [(o,) for o in others]
+        if len(others) > 1 or (others and setname != "gen"):
             ctxs.append(tuple(others))
         if tier == "thorough":
             ctxs += list(itertools.combinations(others, 2))
@@ -120,7 +121,7 @@ def check_case(prog, info, v, ctx, x, driver, part, record=True):
     return compare(exp, streams[0])
 
 
-def check_program(prog, tier, part):
+def check_program(prog, tier, part, setname="gen"):
     info = C.analyse(prog)
     if info is None:
         return
@@ -128,7 +129,7 @@ def check_program(prog, tier, part):
     drivers = (P.DRIVERS_THOROUGH if tier == "thorough" else P.DRIVERS_QUICK) if info["is_gen"] else [None]
     for x in (0, 1, 2):
         for driver in drivers:
-            for v, ctx in focus_configs(info, tier):
+            for v, ctx in focus_configs(info, tier, setname):
                 bad = check_case(prog, info, v, ctx, x, driver, part)
                 if bad:
                     kind, form, detail = bad
@@ -158,7 +159,7 @@ def work(unit, tier):
     name, lo, hi = unit
     kw = dict(program_sets(tier))[name]
     for prog in C.programs_slice(tier, lo, hi, **kw):
-        check_program(prog, tier, part)
+        check_program(prog, tier, part, name)
     return part
 
 
